@@ -45,7 +45,7 @@ def plan(tier, seed):
     q = tier == "quick"
     specs = []
     for i in range(6):
-        specs.append({"name": "trace%02d" % i, "kind": "trace", "shard": i, "runs": 4 if q else 30, "timeout": 7000})
+        specs.append({"name": "trace%02d" % i, "kind": "trace", "shard": i, "runs": 8 if q else 40, "timeout": 7000})
     for i in range(3):
         specs.append({"name": "nojit%02d" % i, "kind": "nojit", "shard": 10 + i, "runs": 2 if q else 10, "timeout": 7000, "mode": {"disable_jit": True}})
     specs.append({"name": "amap", "kind": "amap", "shard": 20, "histories": 150 if q else 2500, "timeout": 7000})
